@@ -287,6 +287,25 @@ func (c *Ctx) rulePairing(rule string, pkgs []string, returnsHolding map[string]
 			construct := name + ":" + k
 			if reason, ok := returnsHolding[name+":"+k]; ok {
 				c.okTrivial(rule, construct, c.pos(fn.Pos()), "returns holding by design: "+reason)
+				// the hand-off only happens on success: an error return must not keep the lock
+				bad := ""
+				for _, b := range fn.Blocks {
+					for _, in := range b.Instrs {
+						rt, isRet := in.(*ssa.Return)
+						if !isRet || retKind(rt) != "fail" {
+							continue
+						}
+						st, dst := lf.at(in)
+						if st[k] && !dst[k] {
+							bad = c.pos(in.Pos())
+						}
+					}
+				}
+				if bad != "" {
+					c.fail(rule, construct+":held-on-error-return", bad, fmt.Sprintf("%s returns an error at %s while still holding %s: the caller has nothing to release it with", name, bad, k))
+				} else {
+					c.ok(rule, construct+":held-on-error-return", c.pos(fn.Pos()), "no failing return keeps the lock")
+				}
 				continue
 			}
 			in := leaks[k]
@@ -494,5 +513,29 @@ func (c *Ctx) ruleCallerHolds(rule string, pkgs []string, g guardSpec) {
 		if c.fn(callee) == nil {
 			c.undecided(rule, callee, "caller-holds function does not resolve")
 		}
+	}
+}
+
+// ruleHeldAt: at every site matching p in fn the given lock is definitely held.
+func (c *Ctx) ruleHeldAt(rule string, fn *ssa.Function, siteName string, p sitePred, lock string, write bool, entry lockState) {
+	if fn == nil {
+		return
+	}
+	if entry == nil {
+		entry = lockState{}
+	}
+	ss := sites(fn, p)
+	if len(ss) == 0 {
+		c.undecided(rule, fnName(fn)+":"+siteName, "site not found")
+		return
+	}
+	lf := newLockFlow(fn, entry, true)
+	for i, in := range ss {
+		st, _ := lf.at(in)
+		if st == nil {
+			continue
+		}
+		construct := fmt.Sprintf("%s:%s#%d:holds:%s", fnName(fn), siteName, i, lock)
+		c.check(st.holds(lock, write), rule, construct, c.pos(in.Pos()), "held: "+st.String(), fmt.Sprintf("%s executes without %s (held: %s)", siteName, lock, st.String()))
 	}
 }
